@@ -155,6 +155,50 @@ HISTORIES = {
 }
 HIST_NAMES = [h for h in HISTORIES if h != 'h0']
 
+# part S: the ways of handing the SAME sizes / the SAME partition to SamplingContext (declared: Iterable[int], Sequence[set])
+SIZE_FORMS = ['list', 'tuple', 'gen', 'iter', 'view']   # list / tuple / generator / one-shot iterator / dict-values view
+PART_FORMS = ['list', 'tuple', 'nofull']                # list of sets / tuple of sets / list of sets without full_set
+FORM_COMBOS = [(sf, pf) for sf in SIZE_FORMS for pf in PART_FORMS if (sf, pf) != ('list', 'list')]
+
+
+def sizes_as(form, ks):
+    """The same sample sizes as another Iterable[int]."""
+    ks = [int(k) for k in ks]
+    if form == 'list':
+        return list(ks)
+    if form == 'tuple':
+        return tuple(ks)
+    if form == 'gen':
+        return (k for k in ks)
+    if form == 'iter':
+        return iter(ks)
+    if form == 'view':
+        return {f's{i}': k for i, k in enumerate(ks)}.values()
+    raise ValueError(form)
+
+
+def partition_as(form, blocks, full):
+    """The same partition (segments in the same order) as another Sequence[set] / with the full set left to the default."""
+    from biogeme.partition import Partition
+    segs = [set(b) for b in blocks]
+    if form == 'list':
+        return Partition(segs, full_set=set(full))
+    if form == 'tuple':
+        return Partition(tuple(segs), full_set=set(full))
+    if form == 'nofull':   # the default full set is the union of the segments = the full set of a true partition
+        return Partition(segs)
+    raise ValueError(form)
+
+
+def form_class(t):
+    sf, pf = t.get('sform') or 'list', t.get('pform') or 'list'
+    out = []
+    if sf != 'list':
+        out.append(f'sizes-as={sf}')
+    if pf != 'list':
+        out.append(f'partition-as={pf}')
+    return ','.join(out) or None
+
 
 def hist_class(h):
     """coarse class of a history for finding keys"""
@@ -376,7 +420,8 @@ def _fnum(x):
 def table_key(t):
     return ((t['J'], tuple(map(tuple, t['part1'])), tuple(t['k1']),
             None if t.get('part2') is None else (tuple(map(tuple, t['part2'])), tuple(t['k2'])), t['spec'], t.get('mv'))
-            + ((t['hist'],) if (t.get('hist') or 'h0') != 'h0' else ()))
+            + ((t['hist'],) if (t.get('hist') or 'h0') != 'h0' else ())
+            + ((form_class(t),) if form_class(t) else ()))
 
 
 def run_table(t, rec: Rec):
@@ -403,11 +448,16 @@ def run_table(t, rec: Rec):
     nviol0 = len(rec.violations) + sum(v.get('more', 0) for v in rec.violations)
     hist = t.get('hist') or 'h0'
     hclass = hist_class(hist)
+    sform, pform = t.get('sform') or 'list', t.get('pform') or 'list'
+    fclass = form_class(t)
 
     def viol(clause, witness, what, expected=None, observed=None, row=None):
         case = dict(t)
         if row is not None:
             case = dict(t, focus_row=row)
+        if fclass:
+            witness = f'{witness}|{fclass}'
+            what = f'{what}; HANDED OVER as: sample sizes {sform}, partition {pform}'
         if hclass:
             witness = f'{witness}|{hclass}'
             what = f'{what}; HISTORY on the same data frames: {HISTORIES[hist]}'
@@ -488,12 +538,12 @@ def run_table(t, rec: Rec):
         stage = 'SamplingContext'
         kw = {}
         if part2 is not None:
-            kw = dict(mev_partition=Partition([set(b) for b in part2], full_set=set(a for b in part2 for a in b)),
-                      mev_sample_sizes=list(k2))
+            kw = dict(mev_partition=partition_as(pform, part2, set(a for b in part2 for a in b)),
+                      mev_sample_sizes=sizes_as(sform, k2))
         if cnl_obj is not None:
             kw['cnl_nests'] = cnl_obj
         ctx = SamplingContext(
-            the_partition=Partition([set(b) for b in part1], full_set=set(all_ids)), sample_sizes=list(k1),
+            the_partition=partition_as(pform, part1, all_ids), sample_sizes=sizes_as(sform, k1),
             individuals=ind_df, choice_column='choice', alternatives=alts_df, id_column=R.ID,
             biogeme_file_name=FILE_NAME, utility_function=utility, combined_variables=cvs, **kw)
         stage = 'sample_and_merge'
@@ -693,7 +743,7 @@ def run_table(t, rec: Rec):
         key = (table_key(t), c, repr(r['a1']), repr(r.get('a2')), r['u'] % len(IND_POOL)) if nontrivial else None
         rec.case(key, (table_key(t), ri, ids1, ids2, [got.get(f'_log_proba_{i}') for i in range(K1)]),
                  outcome=(tuple(sorted(set(fails))) or 'ok', len(part1), full1, k1[sc] == 1, part2 is not None and full2, mv)
-                 + ((hclass,) if hclass else ()))
+                 + ((hclass,) if hclass else ()) + ((fclass,) if fclass else ()))
         row_ok.append(not fails)
 
     # ---- likelihoods
@@ -940,7 +990,15 @@ def tasks(tier, seed):
     ids = IDS[:J]
     vcases.append(dict(J=J, part1=[ids[:2]], k1=[2], observe='partition-not-covering-the-alternatives'))
     vcases.append(dict(J=J, part1=[ids[:2], ids[2:]], k1=[2], observe='fewer-sizes-than-strata'))
+    vcases.append(dict(J=J, part1=[ids[:2], ids[2:]], k1=[1, 1], part2=[ids[:2], [ids[2]]], k2=[1, 1],
+                       observe='numpy-array-as-sample-sizes'))
     out.append(dict(part='V', cases=vcases))
+    # part P: lists of segments that are NOT partitions (two segments share an alternative, or one segment is listed twice)
+    for Jp, nseg in ([(4, 3)] if tier == 'quick' else [(4, 4), (5, 3)]):
+        subs = R_nonempty_subsets(IDS[:Jp])
+        step = 5 if tier == 'quick' else (1 if nseg == 4 else 4)
+        for i in range(0, len(subs), step):
+            out.append(dict(part='P', J=Jp, nseg=nseg, firsts=subs[i:i + step]))
     # simplest first, but the heavy ones must not all sit at the end: keep order (contexts are simplest first)
     return out
 
@@ -993,6 +1051,15 @@ def tables_of(ctx, tier):
             plan = [(base[-1], HIST_NAMES[(3 * n + j) % len(HIST_NAMES)]) for j in range(3)]
     for b, h in plan:
         out.append(dict({k: v for k, v in b.items() if k != 'nforms'}, hist=h))
+    # ---- part S: additional tables = the 3-row (or only) table again, the same sizes / partition handed over in another form
+    nf = len(FORM_COMBOS)
+    if tier == 'quick':
+        combos = FORM_COMBOS if (full and ctx.get('part2') is not None and n % 6 == 0) else [FORM_COMBOS[n % nf]]
+    else:
+        combos = (FORM_COMBOS if (full and n % 3 == 0)
+                  else [FORM_COMBOS[(2 * n + j) % nf] for j in range(2)])
+    for sf, pf in combos:
+        out.append(dict({k: v for k, v in base[-1].items() if k != 'nforms'}, sform=sf, pform=pf))
     return out
 
 
@@ -1017,6 +1084,11 @@ def run_task(task):
         elif task['part'] == 'V':
             for case in task['cases']:
                 _validation_case(case, rec)
+        elif task['part'] == 'P':
+            for first in task['firsts']:
+                for segs in non_partitions(task['J'], task['nseg'], first):
+                    for full in (True, False):
+                        _non_partition_case(dict(part='P', J=task['J'], segs=segs, full=full), rec)
     finally:
         uninstall()
         _cleanup()
@@ -1036,9 +1108,16 @@ def _validation_case(case, rec):
     ind_df = pd.DataFrame({c: [ind[c]] for c in ['choice'] + IND_COLS})
     utility, cvs = build_spec('S0')
     outcome = 'accepted'
+    kw = {}
+    k1 = list(case['k1'])
+    if case.get('observe') == 'numpy-array-as-sample-sizes':
+        import numpy as np
+        k1 = np.array(k1)
+        kw = dict(mev_partition=Partition([set(b) for b in case['part2']], full_set=set(a for b in case['part2'] for a in b)),
+                  mev_sample_sizes=np.array(case['k2']))
     try:
         SamplingContext(the_partition=Partition([set(b) for b in case['part1']], full_set=set(a for b in case['part1'] for a in b)),
-                        sample_sizes=list(case['k1']), individuals=ind_df, choice_column='choice', alternatives=alts_df,
+                        sample_sizes=k1, **kw, individuals=ind_df, choice_column='choice', alternatives=alts_df,
                         id_column=R.ID, biogeme_file_name=FILE_NAME, utility_function=utility, combined_variables=cvs)
     except BiogemeError:
         outcome = 'BiogemeError'
@@ -1056,10 +1135,130 @@ def _validation_case(case, rec):
                       f'with BiogemeError', dict(part='V', **case), expected='BiogemeError', observed=outcome)
 
 
+def R_nonempty_subsets(ids):
+    """every non-empty subset of ids, as a list in the order of ids; smallest first"""
+    import itertools
+    return [list(c) for r in range(1, len(ids) + 1) for c in itertools.combinations(ids, r)]
+
+
+def non_partitions(J, nseg, first):
+    """every ordered list of 2..nseg non-empty subsets of the first J ids that starts with `first` and in which at least
+    two segments (at different positions) share an alternative - equal segments included"""
+    import itertools
+    subs = R_nonempty_subsets(IDS[:J])
+    out = []
+    for n in range(2, nseg + 1):
+        for rest in itertools.product(subs, repeat=n - 1):
+            segs = [first] + [list(x) for x in rest]
+            if any(set(a) & set(b) for a, b in itertools.combinations(segs, 2)):
+                out.append(segs)
+    return out
+
+
+class PolicySeam:
+    """Sampler used only when a non-partition has been ACCEPTED (never on a tree where all of them are refused): answers a
+    request for n rows with the first n rows ('first') or the last n rows ('last') of the frame."""
+
+    def __init__(self, policy):
+        self.policy = policy
+        self.pos = 0
+
+    def __call__(self, df, n=None, frac=None, replace=False, weights=None, random_state=None, axis=None,
+                 ignore_index=False):
+        self.pos += 1
+        k = max(0, min(int(n), len(df)))
+        rows = list(range(k)) if self.policy == 'first' else list(range(len(df) - k, len(df)))
+        out = df.iloc[rows].copy()
+        if ignore_index:
+            out = out.reset_index(drop=True)
+        return out
+
+
+def _non_partition_case(case, rec):
+    """A list of segments in which two segments share an alternative is not a partition.  Oracle (the statement only): it is
+    refused - or, if the library accepts it, no generated choice set / MEV sample contains an alternative twice."""
+    import itertools
+    import pandas as pd
+    from biogeme.partition import Partition
+    from biogeme.sampling_of_alternatives import SamplingContext, ChoiceSetsGeneration
+
+    J, segs, full = case['J'], case['segs'], case['full']
+    ids = IDS[:J]
+    union = sorted(set(a for b in segs for a in b))
+    twice = any(set(a) == set(b) for a, b in itertools.combinations(segs, 2))
+    cls = 'one-segment-listed-twice' if twice else 'two-segments-share-an-alternative'
+    key = ('P', J, repr(segs), full)
+
+    def make():
+        return Partition([set(b) for b in segs], full_set=set(ids)) if full else Partition([set(b) for b in segs])
+
+    try:
+        make()
+    except Exception as e:
+        rec.case(key, (J, segs, full, 'refused', type(e).__name__), outcome=('P', cls, len(segs), 'refused-by-Partition',
+                                                                             type(e).__name__))
+        return
+    rec.count('non_partitions_accepted_by_Partition')
+    alts = alt_table(J)
+    utility, cvs = build_spec('S0')
+    outcomes = []
+    reported = set()
+    for role in ('first', 'mev'):
+        for kname in ('one', 'all'):
+            ks = [1 if kname == 'one' else len(b) for b in segs]
+            inds = [individual(J, u, c) for u, c in enumerate(ids)]
+            alts_df = pd.DataFrame({c: [a[c] for a in alts] for c in [R.ID] + ATTRS})
+            ind_df = pd.DataFrame({c: [i[c] for i in inds] for c in ['choice'] + IND_COLS})
+            try:
+                if role == 'first':
+                    kw = dict(the_partition=make(), sample_sizes=list(ks))
+                else:
+                    kw = dict(the_partition=Partition([set(ids)], full_set=set(ids)), sample_sizes=[J],
+                              mev_partition=make(), mev_sample_sizes=list(ks))
+                ctx = SamplingContext(individuals=ind_df, choice_column='choice', alternatives=alts_df, id_column=R.ID,
+                                      biogeme_file_name=FILE_NAME, utility_function=utility, combined_variables=cvs, **kw)
+            except Exception as e:
+                outcomes.append((role, kname, type(e).__name__, 'refused-by-SamplingContext'))
+                continue
+            for policy in ('first', 'last'):
+                install(PolicySeam(policy))
+                try:
+                    data = ChoiceSetsGeneration(ctx).sample_and_merge(recycle=False).data
+                except Exception as e:
+                    outcomes.append((role, kname, policy, type(e).__name__, 'generation-raises'))
+                    rec.count('non_partition_accepted_generation_raises')
+                    continue
+                finally:
+                    uninstall()
+                    _cleanup()
+                pat = re.compile(r'^' + ('_MEV_' if role == 'mev' else '') + re.escape(R.ID) + r'_(\d+)$')
+                cols = [c for c in data.columns if pat.match(c)]
+                dup = None
+                for ri in range(len(data)):
+                    got = [_fnum(data[c].iloc[ri]) for c in cols]
+                    got = [int(v) for v in got if v is not None and not math.isnan(v)]
+                    if len(set(got)) != len(got):
+                        dup = (ri, got)
+                        break
+                outcomes.append((role, kname, policy, 'alternative-twice' if dup else 'no-duplicate'))
+                if dup and role not in reported:
+                    reported.add(role)
+                    rec.violation(
+                        f'C19|non-partition-accepted-and-alternative-twice|{cls}|{role}',
+                        f'the segments {segs} (full set {"given: " + str(ids) if full else "left to the default"}) are not a '
+                        f'partition ({cls}) but were accepted; with sizes {ks} as the {role} partition the '
+                        f'{"choice set" if role == "first" else "MEV sample"} generated for the individual choosing '
+                        f'{inds[dup[0]]["choice"]} is {dup[1]} (sampler answering with the {policy} n rows)',
+                        dict(case), expected='refused, or no alternative twice', observed=dup[1])
+    rec.case(key, (J, segs, full, outcomes), outcome=('P', cls, len(segs), 'accepted', tuple(sorted(set(o[-1] for o in outcomes)))))
+
+
 def replay(case):
     rec = Rec()
     try:
-        if case.get('part') == 'V':
+        if case.get('part') == 'P':
+            _non_partition_case(case, rec)
+        elif case.get('part') == 'V':
             _validation_case(case, rec)
         else:
             t = {k: v for k, v in case.items() if k != 'focus_row'}
